@@ -3,6 +3,7 @@ what counts as non-trivial, which assumptions are recorded in the evidence."""
 import glob
 import json
 import os
+import re
 import subprocess
 import time
 
@@ -497,4 +498,93 @@ PROPS["C19"] = Prop(
                                  "writer and adopter are the same process (the adopt path is identical; cross-process ABI differences cannot occur with one build)"],
     technique="runtime monitor: PROT_NONE guard region + ASan fault attribution, canonical-dump / XML equality, errno checks, /proc/self/maps inspection",
     level_text="exploration: write/adopt of annotated topologies at several offsets; guard region after the mapping; adopted-side modifying calls and allow()",
+)
+
+
+_TSAN_FRAME = re.compile(r"^\s*#(\d+) (\S+) (\S+)")
+
+
+def _tsan_access(stack_text):
+    """(origin, function) of one access stack: origin is 'hwloc' when the innermost non-interceptor frame is hwloc code, 'ext:<lib>'
+    when it is inside an uninstrumented shared library (TSan only sees that library through libc interceptors such as strcmp and cannot
+    see its own atomics), 'harness' otherwise. function is the innermost hwloc function of the stack."""
+    origin, top = None, None
+    for line in stack_text.splitlines():
+        m = _TSAN_FRAME.match(line)
+        if not m:
+            continue
+        fn, loc = m.group(2), m.group(3)
+        rest = line[m.end():]
+        if "libtsan" in rest or "libtsan" in loc:
+            continue
+        is_repo = ("/harness/" not in loc and not loc.startswith(vlib.VERIF) and
+                   ((vlib.REPO + "/") in loc or "/hwloc/" in loc or "/include/hwloc" in loc))
+        if origin is None:
+            if is_repo:
+                origin = "hwloc"
+            elif "/harness/" in loc or loc.startswith(vlib.VERIF):
+                origin = "harness"
+            else:
+                lib = re.search(r"\((lib[\w.+-]+?\.so[\w.]*)\+", rest)
+                origin = "ext:" + (lib.group(1) if lib else "?")
+        if is_repo and top is None:
+            top = fn
+    return origin or "?", top
+
+
+def tsan_post(st, res, out):
+    """Collect the ThreadSanitizer report blocks written by every process of the stage (log_path=tsan), de-duplicate them by
+    (kind, sorted set of the innermost hwloc functions of the accesses made by hwloc code) and turn each distinct one into a violation."""
+    total, distinct, not_judged = 0, {}, {}
+    for f in sorted(glob.glob(os.path.join(out, "tsan.*"))):
+        text = open(f, errors="replace").read()
+        for blk in text.split("=================="):
+            m = re.search(r"WARNING: ThreadSanitizer: ([^\n(]+)", blk)
+            if not m:
+                continue
+            total += 1
+            kind = m.group(1).strip().replace(" ", "-")
+            accs = []
+            for p in re.split(r"\n\n", blk):
+                if re.search(r"(?m)^\s+(Previous )?([Aa]tomic )?([Rr]ead|[Ww]rite) of size", p):
+                    accs.append(_tsan_access(p))
+            if kind != "data-race":
+                fn = _tsan_access(blk)[1]
+                distinct.setdefault("tsan:%s@%s" % (kind, fn or "?"), blk.strip()[:2500])
+                continue
+            judged = sorted(set(fn for o, fn in accs[:2] if o == "hwloc" and fn))
+            if not judged:
+                k = "+".join(sorted(set(o for o, _ in accs[:2]))) or "?"
+                not_judged[k] = not_judged.get(k, 0) + 1
+                continue
+            distinct.setdefault("tsan:%s@%s" % (kind, "|".join(judged)), blk.strip()[:2500])
+    for key, blk in sorted(distinct.items()):
+        res["records"].append({"t": "viol", "case": -1, "key": key, "detail": blk, "desc": "TSan report collected from " + out})
+    res["stats"]["tsan.report_blocks"] = total
+    res["stats"]["tsan.distinct_hwloc_reports"] = len(distinct)
+    for k, v in not_judged.items():
+        res["stats"]["tsan.not_judged." + k[:48]] = v
+
+
+PROPS["C17"] = Prop(
+    "C17",
+    [Stage("tsan", "c17_threads", "tsan", quick=96, thorough=1600, per_worker_env=xml_backend_env, post=tsan_post,
+           env={"TSAN_OPTIONS": "halt_on_error=0:second_deadlock_stack=1:exitcode=0:history_size=4:log_path=tsan"})],
+    rule=("gcc ThreadSanitizer build of the library and the harness. Even cases: one topology (synthetic or corpus XML with I/O and Misc kept), "
+          "4-13 annotating calls followed by restricts (which invalidate the distances / memattr object caches), hwloc_topology_refresh(), the "
+          "consulting battery once single-threaded (canonical dump of everything incl. distances / memattrs / cpukinds, XML v3 and v2 export, "
+          "synthetic export, per-object type/attr printing + covering / largest / closest / ancestor helpers + bitmap queries, distances "
+          "get / by_name / release, memattr targets / initiators / value / best, cpukinds, default nodeset), then 4-12 threads released by a "
+          "barrier each running the battery 3x (6x thorough) in rotated order: every result must equal the single-threaded one. Odd cases: 4-12 "
+          "threads x 2-4 independent histories (init, load from synthetic / XML file / XML buffer / the running system, 2-7 modifying calls, "
+          "refresh, battery, dup, destroy) compared with the same seeded histories re-run alone. Every TSan report with an hwloc frame is a "
+          "violation, de-duplicated by (kind, pair of outermost hwloc functions). distinct+non-trivial = class 1: reader swarms over topologies "
+          "with >= 2 of {distances, memattr values, cpukinds}, keyed by (features, threads, shape); class 2: thread groups where at least "
+          "one history per thread loaded"),
+    nontrivial_classes=[1, 2], floor=20,
+    assumptions=COMMON_ASSUME + ["interleavings are those the scheduler produces with 16 worker processes x 4-12 threads on 16 cores (oversubscribed) plus sched_yield "
+                                 "between sub-batteries in some threads; TSan's happens-before analysis generalises over timing only for code both threads executed",
+                                 "races whose two stacks lie entirely outside hwloc (harness, libc, libxml2 internals) are counted but not judged"],
+    technique="ThreadSanitizer (gcc -fsanitize=thread) on reader swarms and independent-history thread groups + per-thread result digests compared with a single-threaded run",
+    level_text="exploration: TSan over concurrent readers of one refreshed topology and over threads with independent topologies; results compared with single-threaded runs",
 )
